@@ -87,6 +87,8 @@ def body_attrs(cube, **kw):
                 mb.add_link(m, lcf, 'L', 'ps', [assets[1]], 'os', [assets[2]]); rel.add_link('ps', 1, 'os', 2)
             else:
                 mb.add_link(m, lcf, 'L', 'ps', [assets[0]], 'os', [assets[1]]); rel.add_link('ps', 0, 'os', 1)
+        if t1 == 'O' and l12:
+            mb.add_link(m, lcf, 'Chain', 'prv', [assets[1]], 'nxt', [assets[2]]); rel.add_link('prv', 1, 'nxt', 2)
         g = AttackGraph(lg, m)
         r = check_nodes(g, m, assets, spec, rel)
         if r:
